@@ -17,6 +17,7 @@ ACL_BODIES = {
             "D4": ("extended", ["permit ip object-group G1 object-group G1", "deny tcp object-group G2 object-group G1 eq 22", "permit ip object-group G1 object-group G2"]),
             "E5": ("extended", ["remark ----------", "permit ip any any", "remark ----------", "permit ip any any", "remark ----------"]),
             "Z0": ("extended", []),          # an access list that is defined but has no entries (yet)
+            "A1-OLD": ("extended", ["permit udp any any eq 53", "deny ip any any"]),      # a name that begins with another list's name
             # long lines: a remark with 100 characters of text, an entry of more than 100 characters
             "L6": ("extended", ["remark " + "change 4711 approved by the network board on 2024-01-31, see ticket NET-000123 for the complete story"[:100].ljust(100, "."),
                                 "permit tcp 192.168.100.0 0.0.0.255 range 10000 20000 192.168.200.0 0.0.0.255 range 30000 40000 ack fin psh rst syn urg log-input",
@@ -27,6 +28,7 @@ ACL_BODIES = {
              "D4": ("extended", ["permit ip addrgroup G1 addrgroup G1", "deny tcp addrgroup G2 addrgroup G1 eq 22", "permit ip addrgroup G1 addrgroup G2"]),
              "E5": ("extended", ["remark ----------", "permit ip any any", "remark ----------", "permit ip any any", "remark ----------"]),
              "Z0": ("extended", []),
+             "A1-OLD": ("extended", ["10 permit udp any any eq 53", "20 deny ip any any"]),
              "L6": ("extended", ["10 remark " + "change 4711 approved by the network board on 2024-01-31, see ticket NET-000123 for the complete story"[:100].ljust(100, "."),
                                  "4294967290 permit tcp 192.168.100.0 0.0.254.255 range 10000 20000 192.168.200.0 0.0.254.255 range 30000 40000 ack fin psh rst syn urg log",
                                  "4294967295 deny ip any any"])},
@@ -211,6 +213,13 @@ def main(chk):
                             cases.append((platform, acl_names, groups, intfs, indent, seed, None))
                             if ik == 2 and k > 1:
                                 cases.append((platform, acl_names, groups, intfs, indent, seed, (acl_names[-1],)))
+    # name filters over lists whose names are prefixes of one another (A1 / A1-OLD), each bound to its own interface
+    for platform in ("ios", "nxos"):
+        for order in (("A1", "A1-OLD"), ("A1-OLD", "A1"), ("A1", "A1-OLD", "B2")):
+            intfs = (("Gi1", (("A1", "in"),)), ("Gi2", (("A1-OLD", "in"), ("A1", "out"))))
+            for flt in (("A1",), ("A1-OLD",), ("A1", "A1-OLD"), ("A1-OLD", "A1"), None):
+                for seed in (0, 2, 4):
+                    cases.append((platform, order, ("G1",) if "B2" in order else (), intfs, 1 + seed % 3, seed, flt))
     res = pmap(check_cfg, cases)
     viol = 0
     for fails, _ in res:
